@@ -297,7 +297,7 @@ fn gen_case(seed: u64, idx: usize, tier: &str) -> Case {
     node_seed[0] = (idx % 251) as u8;
     node_seed[1] = 0xc4;
     node_seed[2] = (seed % 251) as u8;
-    let full_every = if tier == "quick" { 32 } else { 8 };
+    let full_every = if tier == "quick" { 32 } else { 16 };
     Case {
         idx,
         kind,
@@ -353,9 +353,24 @@ fn real_setup(secp: &Secp256k1<All>, c: &Case) -> ChannelSetup {
 }
 
 struct Live {
+    world: World,
     node: Arc<Node>,
     channel_id: ChannelId,
     holder: ChannelPublicKeys,
+}
+
+impl Live {
+    /// a signer restart: the node, its channel and the channel's signer are rebuilt from the store
+    fn restart(&mut self) -> bool {
+        let id = self.node.get_id();
+        match catch_unwind(AssertUnwindSafe(|| self.world.restart(&id))) {
+            Ok(n) => {
+                self.node = n;
+                true
+            }
+            Err(_) => false,
+        }
+    }
 }
 
 /// a fresh node with the case's channel, ready to sign commitment `n`
@@ -384,7 +399,7 @@ fn make_live(secp: &Secp256k1<All>, c: &Case) -> Option<Live> {
             Ok(chan.keys.pubkeys().clone())
         })
         .ok()?;
-    Some(Live { node, channel_id, holder })
+    Some(Live { world, node, channel_id, holder })
 }
 
 // ------------------------------------------------------------------ independent key derivation (BOLT-3)
@@ -1242,7 +1257,7 @@ fn run(args: &Args) {
         }
         let c = gen_case(args.seed, idx, &args.tier);
         let mut rng = Rng::new(args.seed ^ (0x5eed + idx as u64 * 104729));
-        let (mut a, b) = match (make_live(&secp, &c), make_live(&secp, &c)) {
+        let (mut a, mut b) = match (make_live(&secp, &c), make_live(&secp, &c)) {
             (Some(a), Some(b)) => (a, b),
             _ => {
                 *dist.entry("setup-refused".into()).or_insert(0) += 1;
@@ -1458,6 +1473,78 @@ fn run(args: &Args) {
                 *dist.entry("phase2-panic".into()).or_insert(0) += 1;
             }
         }
+        // restart: the signer restored from the store must give the same answers.  The channel was
+        // persisted by the accepted phase-2 request; a retry of the same commitment is admitted
+        // by the state it stored.
+        let mut restarted = false;
+        if let (R::Ok((sig2, hsigs)), true) = (&r2, idx % 2 == 0) {
+            // control: the same two requests on a node that is not restarted (a retry may be
+            // refused for reasons of its own, e.g. by the payment policies once the payments of the
+            // first request are booked)
+            let ctrl = make_live(&secp, &c);
+            fn kind<T>(r: &R<T>) -> u8 {
+                match r {
+                    R::Ok(_) => 0,
+                    R::Err(_) => 1,
+                    R::Panic => 2,
+                }
+            }
+            let (ctrl2, ctrl1) = match &ctrl {
+                Some(l) => {
+                    let _ = phase2(l, &c, &k.pcp);
+                    let r = kind(&phase2(l, &c, &k.pcp));
+                    // a panic poisons the node: the phase-1 control needs its own
+                    let l1 = make_live(&secp, &c);
+                    let r1 = match &l1 {
+                        Some(l1) => {
+                            let _ = phase2(l1, &c, &k.pcp);
+                            kind(&phase1(l1, &c, &k.pcp, &mtx, &m.ws))
+                        }
+                        None => 1,
+                    };
+                    (r, r1)
+                }
+                None => (1, 1),
+            };
+            if b.restart() {
+                restarted = true;
+                let r2r = phase2(&b, &c, &k.pcp);
+                if kind(&r2r) != ctrl2 {
+                    viol.push(json!({"what": "a restart from the store changes what phase 2 answers to the retry of a signed commitment (0 signed, 1 refused, 2 panic)",
+                                     "with_restart": kind(&r2r), "without": ctrl2}));
+                }
+                if let R::Ok((s2r, hr)) = &r2r {
+                    sig_checks += 1;
+                    if !verify(&secp, &mtx, 0, &fs, c.value, EcdsaSighashType::All, s2r, &holder_funding) {
+                        viol.push(json!({"what": "after a restart from the store the phase-2 commitment signature does not verify on the model's canonical transaction"}));
+                    }
+                    if *s2r != *sig2 || *hr != *hsigs {
+                        viol.push(json!({"what": "phase 2 returns different signatures after a restart from the store"}));
+                    }
+                }
+                if matches!(r2r, R::Panic) {
+                    // the restored node is poisoned: restore it once more for the phase-1 request
+                    b.restart();
+                }
+                let r1r = phase1(&b, &c, &k.pcp, &mtx, &m.ws);
+                if kind(&r1r) != ctrl1 {
+                    viol.push(json!({"what": "a restart from the store changes what phase 1 answers to the canonical transaction of a signed commitment (0 signed, 1 refused, 2 panic)",
+                                     "with_restart": kind(&r1r), "without": ctrl1}));
+                }
+                if let R::Ok(s1r) = &r1r {
+                    sig_checks += 1;
+                    if !verify(&secp, &mtx, 0, &fs, c.value, EcdsaSighashType::All, s1r, &holder_funding) {
+                        viol.push(json!({"what": "after a restart from the store the phase-1 signature does not verify on the model's canonical transaction"}));
+                    }
+                    if *s1r != *sig2 {
+                        viol.push(json!({"what": "the two entry points return different signatures after a restart from the store"}));
+                    }
+                }
+                *dist.entry(format!("restart-checked:retry-{}", ["signed", "refused", "panic"][kind(&r2r) as usize])).or_insert(0) += 1;
+            } else {
+                viol.push(json!({"what": "the node cannot be restored from the store after a signed commitment"}));
+            }
+        }
         // digests computed by Gallina SHA-256 for a sample: rust-bitcoin's txid / BIP143 agree
         let mut digest_checked = false;
         if let Some((txid, sh, hs)) = &m.digests {
@@ -1502,7 +1589,7 @@ fn run(args: &Args) {
                 "validator_accepts": acc0,
                 "builder_agrees": builder_agrees,
                 "n_outputs": mtx.output.len(), "n_htlc_txs": m.htx.len(), "mutants": n_case_mutants,
-                "digest_checked": digest_checked,
+                "digest_checked": digest_checked, "restarted": restarted,
                 "model_tx": hexs(&m.tx),
                 "violations": viol,
                 "panics": panics.iter().take(3).collect::<Vec<_>>(), "n_panics": panics.len(),
